@@ -106,8 +106,12 @@ class MAUPITILinear(nn.Linear, MAUPITIModule):
         # Initialize the zero_point to `self.add_bias`
         with torch.no_grad():
             if not self.last_layer:
+                # the offset of the (signed) input activations depends on the input precision,
+                # the one of the output activations on the output precision
+                in_clip_inf = torch.tensor(-2 ** (self.in_quantizer.precision - 1),
+                                           device=self.device)
                 self._zero_point = (self.add_bias + (self.clip_inf * 2**self.shift) -
-                                    self.clip_inf * self.scale *
+                                    in_clip_inf * self.scale *
                                     torch.sum(self.weight, dim=1
                                               ).view(1, self.out_features))
             else:
